@@ -2,6 +2,7 @@ package main
 
 import (
 	"fmt"
+	"math/big"
 	"strings"
 
 	"github.com/zclconf/go-cty/cty"
@@ -241,6 +242,8 @@ func shapesStr(args []cty.Value) string {
 func runC01(c *Ctx) {
 	k := 2
 	c.Note("bound_k_positions", fmt.Sprint(k))
+	weakenAlts = 3
+	c.Note("alt_concretisations_per_weakening", fmt.Sprint(weakenAlts))
 	c01Cases(c.Thorough, func(oc opCase) {
 		c.Unit(func(u *U) {
 			op := oc.op
@@ -299,6 +302,36 @@ func runC01(c *Ctx) {
 					args := append([]cty.Value(nil), oc.args...)
 					args[i] = w.V
 					try(args, fmt.Sprintf("arg%d %s", i, w.Desc))
+					// the abstract result must admit the concrete result of every
+					// other concretisation of the weakened operand as well
+					if len(w.Alts) == 0 {
+						continue
+					}
+					rW, pW, _ := callOp(op, args)
+					if pW {
+						continue
+					}
+					for _, alt := range w.Alts {
+						cargs := append([]cty.Value(nil), oc.args...)
+						cargs[i] = alt
+						rA, pA, _ := callOp(op, cargs)
+						u.Eval(1)
+						if pA {
+							continue
+						}
+						u.Class("alt-concretisation")
+						if ok, why := admits(rW, rA); !ok {
+							site := op.Name + ".excludes-other-concretisation"
+							if ex, okx := exactArith(op.Name, cargs); okx {
+								if ok2, _ := admits(rW, ex); ok2 {
+									// the bounds hold for the exact real result; only the
+									// concrete result's rounding to operand precision leaves them
+									site = op.Name + ".excludes-rounded-concretisation"
+								}
+							}
+							u.Violation(site, shapesStr(args)+" => "+shapeOf(rW), fmt.Sprintf("weakened call %s(%s) = %s; the weakened operand also admits %s, for which %s(%s) = %s, which the abstract result excludes: %s", op.Name, argsStr(args), goStr(rW), goStr(alt), op.Name, argsStr(cargs), goStr(rA), why))
+						}
+					}
 				}
 			}
 			if nargs == 2 {
@@ -316,4 +349,31 @@ func runC01(c *Ctx) {
 			}
 		})
 	})
+}
+
+// exactArith computes Add/Subtract/Multiply of two finite numbers without
+// rounding (mantissa wide enough for every alphabet member).
+func exactArith(name string, args []cty.Value) (cty.Value, bool) {
+	if len(args) != 2 || args[0].Type() != cty.Number || args[1].Type() != cty.Number || !args[0].IsKnown() || !args[1].IsKnown() || args[0].IsNull() || args[1].IsNull() {
+		return cty.NilVal, false
+	}
+	a, b := bf(args[0]), bf(args[1])
+	if a.IsInf() || b.IsInf() {
+		return cty.NilVal, false
+	}
+	r := new(big.Float).SetPrec(20000)
+	switch name {
+	case "Add":
+		r.Add(a, b)
+	case "Subtract":
+		r.Sub(a, b)
+	case "Multiply":
+		r.Mul(a, b)
+	default:
+		return cty.NilVal, false
+	}
+	if r.Acc() != big.Exact {
+		return cty.NilVal, false
+	}
+	return cty.NumberVal(r), true
 }
